@@ -579,6 +579,8 @@ class Segment:
             self.fire("exit_ioerror." + a["errno"])
         if a is not None and not a.get("done"):
             self.probe("exit_fault_not_fired")
+        if not crashed:
+            self.disk.verify()  # journal completeness: every write path of the wisdom save was seen
         self.events.append([k, "exit", "crashed" if crashed else "clean", wisdom_class()])
         return "exit-crashed" if crashed else "exit-clean"
 
